@@ -138,3 +138,31 @@ prop("C11",
          {"name": "main", "build": "fast", "bin": "c11"},
          {"name": "nostd", "build": "nostd", "bin": "c11", "set": {"sqrt": "approx"}},
      ])
+
+prop("C17",
+     technique="runtime monitoring: lock-step reference model of the accumulated phase (double-double + running rounding bound), waveform oracles per frame, instrumented frequency source (pull counting), noise reproducibility checks; std and no_std builds",
+     level_text=("Every (rate, frequency) pair from rates {1, 4, 44100, 48000, 1e-3, 1e9} x frequency multiples {0, 1/4, 1/3, 1/2, 7/8, 1-1e-9, 1, 2.5, 1e6, 1e-9, 1e-3} for "
+                 "3 000 / 60 000 frames, long runs (3e5 / 1e7 frames) for drift, five variable-frequency patterns per rate with an instrumented control source; phase, saw, "
+                 "square, sine and simplex checked on every frame; noise for structured seeds (incl. u64::MAX-4..=u64::MAX) and random ones; simplex scanned over all 256 "
+                 "gradient cells at 2^10 / 2^15 positions each via a custom Step. Exploration: rates, frequency sequences and run lengths are unbounded."),
+     level_note="trusted: IEEE fmod exactness (only the addition rounds), library sin/cos (two routes must agree within 8u(1+2pi)), double-double accumulated step sum",
+     rule=("cases are runs: (rate, constant hz), (rate, variable-hz pattern, seed), noise seeds, simplex scan; non-trivial = anything but the doc-tests' rate-4 hz-1 and "
+           "noise(0); distinct by hash of the run parameters; evaluations = per-frame output checks"),
+     stages=[
+         {"name": "main", "build": "fast", "bin": "c17"},
+         {"name": "nostd", "build": "nostd", "bin": "c17"},
+     ])
+
+prop("C20",
+     technique="runtime monitoring: formula oracle on a dense phase grid, item-by-item check of Window iterators, exhaustive (L, bin, hop) enumeration of the Windower with size_hint checked against a drained clone; std and no_std builds",
+     level_text=("Hann/Rectangle at 2^16 (quick) / 2^20 (thorough) grid phases + random + end points for f64 and f32 phases (shape, range, symmetry); Window iterators "
+                 "hann/rectangle/new for every n in 2..=257 / 2..=4096 in three frame types; Windower for every (L <= 24 / 40, bin 2..=L+2, hop 1..=L+2) x {hann, rectangle} "
+                 "x {f64, [f32;2], [i16;2]}: chunk count, every frame of every chunk (frames all distinct), and size_hint before every next() against the number of "
+                 "chunks a clone still yields; plus random long inputs. Exploration: L, bin, hop are unbounded."),
+     level_note="trusted: library cos for the reference shape (tolerance 4u / 8u), the Window iterator's own values as weights for the Windower content check (validated separately against the formula)",
+     rule=("cases are grid phases, window lengths n, and (L, bin, hop, window, frame type) triples, enumerated; non-trivial = every window length and every triple "
+           "except the test-suite's (L=8,bin=2,hop=1) and (16,8,4); distinct by hash of n / (L, bin, hop); evaluations = per-item checks"),
+     stages=[
+         {"name": "main", "build": "fast", "bin": "c20"},
+         {"name": "nostd", "build": "nostd", "bin": "c20"},
+     ])
